@@ -544,6 +544,13 @@ theorem preload_invisible (ops : List Op) (op : Op) :
     (preload (run {} ops) op).Same (run {} ops) ∧ ((run {} ops).Loaded → preload (run {} ops) op = run {} ops) :=
   ⟨preload_same (inv_reachable ops) op, fun hl => preload_of_loaded hl op⟩
 
+/-- The loaded twin, exactly: an operation whose first action is a read access to the contours of glyph `t`
+(`insertContour`, `removeContour`, `clearContours`, `clear`, `reloadGlyphs`, every call that names a contour by its
+index, `len(glyph)`) has the same result and leaves the same world — not just an indistinguishable one — whether
+glyph `t` was still shallow or had been loaded beforehand. -/
+theorem loaded_twin_exact (w : World) (op : Op) (t : Nat) (h : Op.looksFirst op = some t) :
+    step (w.load t) op = step w op := step_load_eq w op t h
+
 /-- The identifiers reserved by contours that are still shallow count as in use: in every reachable state, every
 identifier of a shallow record (the contour's own, its points') is registered, and nothing else in the container
 — no other record, no component, anchor or guideline — carries it. -/
@@ -556,6 +563,53 @@ theorem shallow_reserved_in_use (ops : List Op) (g : Glyph) (hg : g ∈ (run {} 
     simp only [List.mem_append, List.mem_flatMap]
     exact Or.inl (Or.inl (Or.inl ⟨c, hc, hx⟩))
   exact ⟨h.2 x hm, by rw [h.1.count]; simp [hm]⟩
+
+/-- `clear_releases` (the seeded fault C10-9, ruled out for the model): `glyph.clearContours()` — the first
+statement of `glyph.clear()` and of `glyph.setDataFromSerialization()` too — in any world that satisfies the
+invariant, on a glyph whose contours are loaded or still shallow: the call succeeds, the glyph has no contour
+left and is loaded, and every identifier that its contours or their points carried (reserved, for shallow ones) is
+free again — the same outline can be drawn anew. -/
+theorem clear_releases (w : World) (hw : WInv w) (t : Nat) (ht : t < w.conts.length) :
+    (step w (.clearContours t)).2 = .ok ∧ ((step w (.clearContours t)).1.get t).contours = [] ∧
+    ((step w (.clearContours t)).1.get t).shallow = false ∧
+    ∀ c ∈ (w.get t).contours, ∀ x ∈ c.ids, x ∉ ((step w (.clearContours t)).1.get t).reg := by
+  have hd := deepen_invisible (w.get t) (winv_get hw t)
+  have hlen : t < (w.load t).conts.length := by simp [World.load, World.put, ht]
+  have hget : (w.load t).get t = deepen (w.get t) := by
+    unfold World.load; rw [get_put]; simp [ht]
+  have hstep : (step w (.clearContours t)).1.get t
+      = (clearContours (deepen (w.get t)).contours.length (deepen (w.get t))).1 := by
+    simp only [step, preload, stepL, hget]
+    have := get_put (w.load t) t t (clearContours (deepen (w.get t)).contours.length (deepen (w.get t))).1
+    simp only [hlen, and_self, if_true] at this
+    exact this
+  have hres : (step w (.clearContours t)).2
+      = (clearContours (deepen (w.get t)).contours.length (deepen (w.get t))).2.1 := by
+    simp only [step, preload, stepL, hget]
+  have hall := clearContours_all hd.2.2.2.1 (deepen (w.get t)).contours.length (Nat.le_refl _)
+  have hfr := frame_clearContours (deepen (w.get t)).contours.length (deepen (w.get t))
+  have haux := aux_clearContours (deepen (w.get t)).contours.length (deepen (w.get t))
+  have hinv := inv_clearContours hd.2.2.2.1 (deepen (w.get t)).contours.length
+  have hnil : (clearContours (deepen (w.get t)).contours.length (deepen (w.get t))).1.contours = [] :=
+    List.length_eq_zero_iff.mp (by rw [hall.1]; omega)
+  rw [hstep, hres]
+  refine ⟨hall.2, hnil, hfr.2.2.2.trans hd.2.2.2.2, ?_⟩
+  intro c hc x hx hreg
+  -- `x` is held by a contour of the glyph before the call, hence by nothing else; afterwards nothing holds it
+  have h1 := hinv.exact x
+  rw [ind_of_mem hreg] at h1
+  have h0 := (winv_get hw t).ex.le_one x
+  have hcs : 0 < cntCs x (w.get t).contours := by
+    rw [cntCs_eq_count]
+    exact List.count_pos_iff.mpr (List.mem_flatMap.mpr ⟨c, hc, hx⟩)
+  unfold Glyph.aux at haux
+  simp only [Prod.mk.injEq] at haux
+  have hs := hd.1
+  simp only [Glyph.cnt, hnil, cntCs_nil, hfr.1, hfr.2.1, hfr.2.2.1, haux.1, haux.2.1, haux.2.2.1, haux.2.2.2.1,
+    haux.2.2.2.2.1, haux.2.2.2.2.2, hs.comps, hs.anchors, hs.guides, hs.cur, hs.stC, hs.stK, hs.stA, hs.stG,
+    hs.leaked] at h1
+  simp only [Glyph.cnt] at h0
+  omega
 
 -- non-vacuity: a UFO is opened (glyph 0: contour 1 with points 2 and none; anchor 3), the contours stay shallow
 -- while an anchor is refused identifier 2 (reserved) and accepted with 4; then the first touch
@@ -573,6 +627,9 @@ example : ((run {} [.reopen [d0, {}, {}] [] none, .deserializeFrom 1 0]).get 1).
 -- a rejected insertContour is the first touch: the glyph is loaded, nothing else changes
 example : (step (run {} [.reopen [d0, {}, {}] [] none]) (.insContour 0 0 ⟨some 2, []⟩)).2 = .err .assertion ∧
     ((step (run {} [.reopen [d0, {}, {}] [] none]) (.insContour 0 0 ⟨some 2, []⟩)).1.get 0).shallow = false := by decide
+example : Op.looksFirst (.clearContours 0) = some 0 ∧
+    (((run {} [.reopen [d0, {}, {}] [] none]).load 0).get 0).shallow = false ∧
+    ((run {} [.reopen [d0, {}, {}] [] none]).get 0).shallow = true := by decide
 example : Clean {} [.reopen [d0, {}, {}] [] none, .insAnchor 0 0 (some 4) true, .drawFrom 1 0 false,
     .insertGlyphVia 1 0, .copyFrom 2 0, .clearGlyph 0, .load 1, .roundtrip 1] := by decide
 
